@@ -297,8 +297,10 @@ INTERP_TYPES = ['go/types', 'golang.org/x/tools/go/types/typeutil', 'errors', 'g
 
 
 def tspec(entry, **params):
+    if entry.startswith('H_recog'):
+        params = dict(params, real_typestring=1)
     # H_recog_expr replaces objectCache.varDecl by a stub, which a native replay cannot do
-    return spec(entry, params=params, label='%s%s' % (entry, params or ''), interp=INTERP_TYPES, init=['go/types'], replayable=(entry != 'H_recog_expr'))
+    return spec(entry, params=params, label='%s%s' % (entry, params or ''), interp=INTERP_TYPES, init=['go/types'], replayable=(entry not in ('H_recog_expr', 'H_load_vars')), **({} if not entry.startswith('H_recog') else {}))
 
 
 PROPS['C20'] = dict(
@@ -435,3 +437,13 @@ PROPS['C19']['thorough'] = [x for x in PROPS['C19']['thorough'] if not str(x.get
 PROPS['C19']['covers']['H_gather'] = ['gathered']
 PROPS['C19']['bounds_text'] += '; the outer set includes up to two inline (unnamed) sets of one package, each including a named set'
 
+
+for _t in ('quick', 'thorough'):
+    PROPS['C20'][_t] = PROPS['C20'][_t] + [tspec('H_recog_ivalue', maxform=3)]
+    PROPS['C13'][_t] = PROPS['C13'][_t] + [tspec('H_recog_ivalue', maxform=3)]
+PROPS['C20']['covers']['H_recog_ivalue'] = ['value-accepted', 'value-refused']
+
+for _t in ('quick', 'thorough'):
+    PROPS['C20'][_t] = PROPS['C20'][_t] + [tspec('H_load_vars')]
+    PROPS['C19'][_t] = PROPS['C19'][_t] + [tspec('H_load_vars')]
+PROPS['C20']['covers']['H_load_vars'] = ['vars-accepted', 'vars-rejected']
